@@ -192,12 +192,9 @@ def doCall (d : DS) (cl : Call Float) : DS × String :=
 
 def stepLine (d : DS) (line : String) : DS × String :=
   match line.trimAscii.toString.splitOn " " with
-  | ["cfg", a, b, f] => ({ d with c := ⟨a == "1", b == "1", f == "1", true, true, true, true, true⟩ }, "ok")
-  | ["cfg", a, b, f, g] => ({ d with c := ⟨a == "1", b == "1", f == "1", g == "1", true, true, true, true⟩ }, "ok")
-  | ["cfg", a, b, f, g, r] => ({ d with c := ⟨a == "1", b == "1", f == "1", g == "1", r == "1", true, true, true⟩ }, "ok")
-  | ["cfg", a, b, f, g, r, m] => ({ d with c := ⟨a == "1", b == "1", f == "1", g == "1", r == "1", m == "1", true, true⟩ }, "ok")
-  | ["cfg", a, b, f, g, r, m, q] => ({ d with c := ⟨a == "1", b == "1", f == "1", g == "1", r == "1", m == "1", q == "1", true⟩ }, "ok")
-  | ["cfg", a, b, f, g, r, m, q, w] => ({ d with c := ⟨a == "1", b == "1", f == "1", g == "1", r == "1", m == "1", q == "1", w == "1"⟩ }, "ok")
+  | "cfg" :: flags =>
+      let b := fun (i : Nat) => (flags.getD i "1") == "1"      -- missing flags = the repaired behaviour
+      ({ d with c := ⟨b 0, b 1, b 2, b 3, b 4, b 5, b 6, b 7, b 8, b 9⟩ }, "ok")
   | ["rbegin", b, s0, c0, start, stop, dt, eqs] =>
       match parseHex b, parseHex s0, parseHex c0, parseHex start, parseHex stop, parseHex dt, parseNats eqs with
       | some b, some s0, some c0, some start, some stop, some dt, some eqs =>
@@ -291,5 +288,5 @@ partial def loop (h : IO.FS.Stream) (d : DS) : IO Unit := do
   loop h d'
 
 def main : IO Unit := do
-  loop (← IO.getStdin) { c := ⟨true, true, true, true, true, true, true, true⟩, m := ⟨1.0, 1.0, 0.0, 1.0, 0, 0.0⟩, spec := mkSpec 0 1 [], eqs := [],
+  loop (← IO.getStdin) { c := ⟨true, true, true, true, true, true, true, true, true, true⟩, m := ⟨1.0, 1.0, 0.0, 1.0, 0, 0.0⟩, spec := mkSpec 0 1 [], eqs := [],
                          lazy := false, st := begin 0.0 }
